@@ -205,6 +205,10 @@ structure Kernel where
       application has closed and that sits in `FinWait2`; after `retxThreshold * (retxMax + 1)`
       silent passes it is aborted (timed out) and `reap_closed` collects it. -/
   fixFw2Timeout : Bool := false
+  /-- Repair f88dd80: a closing listener only sweeps `SynReceived` children of its own address
+      family (`0.0.0.0:p` and `[::]:p` may both listen; before, closing one reset the other's
+      half-open children too). -/
+  fixCloseFamily : Bool := false
 deriving Repr, Inhabited
 
 inductive Err
@@ -569,7 +573,8 @@ def close (k : Kernel) (fd : Fd) : Kernel :=
           c.fd != fd && !ready.contains c.fd &&
             (match c.tcb, c.bound with
              | some tc, some b =>
-               tc.state == .synRecv && b.port == l.port && (wildcard || b.addr == l.ip)
+               tc.state == .synRecv && b.port == l.port && (!k.fixCloseFamily || b.addr.v6 == l.ip.v6) &&
+                 (wildcard || b.addr == l.ip)
              | _, _ => false)
         let children := ready ++ extra.map (·.fd)
         let k := children.foldl (fun k c =>
@@ -633,9 +638,9 @@ deriving Repr, Inhabited
 namespace Fabric
 
 def addHost (f : Fabric) (addrs : List Ip) (fixReap : Bool := false) (fixAck : Bool := false)
-    (fixRetxReset : Bool := false) (fixQuiet : Bool := false) (fixFw2Timeout : Bool := false) : Fabric :=
+    (fixRetxReset : Bool := false) (fixQuiet : Bool := false) (fixFw2Timeout : Bool := false) (fixCloseFamily : Bool := false) : Fabric :=
   let id := f.hosts.length
-  { hosts := f.hosts ++ [{ addrs := addrs.eraseDups, fixReap := fixReap, fixAck := fixAck, fixRetxReset := fixRetxReset, fixQuiet := fixQuiet, fixFw2Timeout := fixFw2Timeout }],
+  { hosts := f.hosts ++ [{ addrs := addrs.eraseDups, fixReap := fixReap, fixAck := fixAck, fixRetxReset := fixRetxReset, fixQuiet := fixQuiet, fixFw2Timeout := fixFw2Timeout, fixCloseFamily := fixCloseFamily }],
     ipToHost := f.ipToHost ++ addrs.map fun a => (a, id) }
 
 /-- `PortAllocator::new(lo..=hi)` on every host (verification hook, before any socket exists). -/
